@@ -117,7 +117,10 @@ def has_cells(ctx, c):
 
 def jobs(ctx):
     cfgs = [c for c in hist.shipped_configs(ctx) if has_cells(ctx, c)]
-    return [(c, {}) for c in cfgs] + hist.crowded_jobs(cfgs) + hist.variations(ctx, cfgs, ctx.n(10, 100))
+    signed = [(c, {"OxygenIndicator": {"charge_values": "0, -1, 0"}}) for c in cfgs
+              if c.endswith("water/coulomb_cell_veto_lj_cell_veto.ini")
+              or c.endswith("water/coulomb_power_bounded_lj_cell_bounded.ini")]
+    return [(c, {}) for c in cfgs] + hist.crowded_jobs(cfgs) + signed + hist.variations(ctx, cfgs, ctx.n(10, 100))
 
 
 def payloads(ctx):
